@@ -16,6 +16,11 @@ def _rule_only(s):
     """projection for C04/C12: which rule answered (or none); names and labels are C11's business"""
     return _re.sub(r'r(\d+|\?\S*) \S+ \[[^\]]*\]', r'r\1', s)
 
+def _qjudge(op, impl):
+    f = op.split()
+    # qconc <seed> <thr> <cap> <nprod> <programs…>  +  observed batches
+    return 'qjudge %s %s %s => %s' % (f[2], f[4], ' '.join(f[5:]), impl)
+
 _TV_NOTE = "no property theorems yet for this id (proofs in progress): claimed as translation validation — the implementation is compared op by op with the executable Lean model AND the model with the executable Lean specification on the same ops"
 
 PROPS = {
@@ -129,6 +134,13 @@ PROPS = {
         'streams': [{'component': 'pipe_c19', 'note_kinds': {'panic', 'gather'}}],
         'level': 'translation_validation',
         'trusted_base': ["client_golang v1.22.0 (vector constructors, child creation and its panics, counter/gauge/histogram/summary updates, Delete, Gather's family checks) and perks' Query fast path are modelled by hand from their sources (SE/Model/Registry.lean)", 'FNV-64 label-hash collisions assumed away', 'IEEE float64 = Lean Float in the driver; strconv.ParseFloat and regexp results shipped by the harness', 'yaml.v2 decodes the rendered configuration to the intended fields'],
+        'assumptions': [_TV_NOTE],
+    },
+    'C16': {
+        'modules': [],
+        'streams': [{'component': 'queue'}, {'component': 'qconc', 'judge': _qjudge}],
+        'level': 'translation_validation',
+        'trusted_base': ["Go runtime semantics of sync.Mutex and channels (a send blocks while the channel is full; the mutex is held across the send) as encoded in the step relation of SE/Model/Queue.lean", "real goroutine schedules are sampled, not enumerated (the theorems quantify over all schedules of the model's atomic steps)"],
         'assumptions': [_TV_NOTE],
     },
 }
